@@ -255,7 +255,7 @@ func evalSets(c *counters, tag string, cp *state.Checkpoint, table []kv, min uin
 }
 
 // evalSchedule compares a GetValidator-like function with the oracle on every timestamp of the plan.
-func evalSchedule(c *counters, tag string, get func(t uint64) *state.Validator, ref []string, cpTimestamp uint64, reps int) {
+func evalSchedule(c *counters, keyPrefix, tag string, get func(t uint64) *state.Validator, ref []string, cpTimestamp uint64, reps int) {
 	interval := consensus.ActiveNetParams.BlockTimeInterval
 	start := cpTimestamp + interval
 	n := len(ref)
@@ -272,11 +272,11 @@ func evalSchedule(c *counters, tag string, get func(t uint64) *state.Validator, 
 						where += ":later-round"
 					}
 					if v == nil {
-						c.viol("nobody-scheduled:"+where, fmt.Sprintf("%s: validators %s, t = start + %d: nobody is scheduled", tag, fmtKeys(ref), t-start))
+						c.viol(keyPrefix+"nobody-scheduled:"+where, fmt.Sprintf("%s: validators %s, t = start + %d: nobody is scheduled", tag, fmtKeys(ref), t-start))
 						continue
 					}
 					if v.PubKey != want {
-						c.viol("schedule-differs:"+where, fmt.Sprintf("%s: validators %s, t = start + %d (round %d slot %d): scheduled %s, reference %s", tag, fmtKeys(ref), t-start, round, slot, short(v.PubKey), short(want)))
+						c.viol(keyPrefix+"schedule-differs:"+where, fmt.Sprintf("%s: validators %s, t = start + %d (round %d slot %d): scheduled %s, reference %s", tag, fmtKeys(ref), t-start, round, slot, short(v.PubKey), short(want)))
 					}
 				}
 			}
@@ -403,7 +403,7 @@ func partA(run *ev.Run, maxKeys int, statuses []state.CheckpointStatus, stamps [
 							cp := mkCheckpoint(table, st, ts)
 							tag := fmt.Sprintf("(a) status=%d fed=%d", st, nFed)
 							ref, _ := evalSets(c, tag, cp, table, min, fed, 4)
-							evalSchedule(c, tag+" table "+fmtTable(table), cp.GetValidator, ref, ts, 4)
+							evalSchedule(c, "", tag+" table "+fmtTable(table), cp.GetValidator, ref, ts, 4)
 						}
 					}
 				}
@@ -447,7 +447,7 @@ func partB(run *ev.Run, twoN, threeN []int, pairs [][]uint64, triples [][]uint64
 				tag := fmt.Sprintf("(b) N=%d levels=%v", N, levels)
 				ref, ok := evalSets(c, tag, cp, table, min, fed, 4)
 				if sched && ok {
-					evalSchedule(c, tag+" table "+fmtTable(table), cp.GetValidator, ref, ts, 1)
+					evalSchedule(c, "", tag+" table "+fmtTable(table), cp.GetValidator, ref, ts, 1)
 				}
 			}
 		}
@@ -659,7 +659,13 @@ func runC(h []int, extra json.RawMessage) (out xplore.Out) {
 		}
 		return k, want
 	}
-	for i, op := range h {
+	// an operation becomes visible at the next epoch boundary: a history that ends inside an epoch
+	// is completed with one empty block
+	ops := append([]int(nil), h...)
+	if (tip.Height+uint64(len(ops)))%E != 0 {
+		ops = append(ops, opNoop)
+	}
+	for i, op := range ops {
 		height := tip.Height + 1
 		if !m.enabled(op, height) {
 			return xplore.Out{Viols: []xplore.Viol{{Key: "infra-disabled-op", What: fmt.Sprint(describeC(h))}}}
@@ -714,7 +720,7 @@ func runC(h []int, extra json.RawMessage) (out xplore.Out) {
 	cur := bnd[tip.Height]
 	ref, fallback := refValidators(cur.table, cMin, w.fed)
 	tag := fmt.Sprintf("(c) tip %d, tally at the last epoch boundary %s", tip.Height, fmtTable(cur.table))
-	evalSchedule(c, tag, func(t uint64) *state.Validator {
+	evalSchedule(c, "through-blocks:", tag, func(t uint64) *state.Validator {
 		v, err := nd.Chain.GetValidator(&tipHash, t)
 		if err != nil {
 			return nil
@@ -805,7 +811,7 @@ func main() {
 	run.Set("c_histories", len(items)*len(cMins))
 	run.Set("c_history_blocks_processed", cBlocks)
 	run.Set("c_distinct_boundary_tallies", cStates)
-	run.Set("rule", "(a) every function from the first k<=K of four keys to {0, min-1, min, min+1, 2^63+12345}, per checkpoint status and timestamp; (b) every assignment of two (three) tally levels to N keys that uses at least two levels; (c) every sequence of <= L operations from {vote(k) of 1.0/1.0/1.2 * 10^8 for k0/k1/k2, veto(k) of the oldest vote output of k, empty block}, once with minimum 10^8 and once with 2*10^8, one operation per block on a real node (E=2). Per checkpoint: EffectiveValidators and AllValidators 4x, GetValidator at {slot start, +1, end-1} of every slot of 3 rotation rounds (4x in (a),(c); 1x in two-level (b); sets only in three-level (b)); in (c) additionally one child block per (slot of one round + 1) x (every known key) is offered to Chain.ProcessBlock. evaluations = calls compared with the reference; distinct_nontrivial = tables with >= 2 qualifying keys or a filtered key ((a),(b)) + distinct (height, boundary tallies) reached in (c)")
+	run.Set("rule", "(a) every function from the first k<=K of four keys to {0, min-1, min, min+1, 2^63+12345}, per checkpoint status and timestamp; (b) every assignment of two (three) tally levels to N keys that uses at least two levels; (c) every sequence of <= L operations from {vote(k) of 1.0/1.0/1.2 * 10^8 for k0/k1/k2, veto(k) of the oldest vote output of k, empty block} (a sequence ending inside an epoch is completed with one empty block), once with minimum 10^8 and once with 2*10^8, one operation per block on a real node (E=2). Per checkpoint: EffectiveValidators and AllValidators 4x, GetValidator at {slot start, +1, end-1} of every slot of 3 rotation rounds (4x in (a),(c); 1x in two-level (b); sets only in three-level (b)); in (c) additionally one child block per (slot of one round + 1) x (every known key) is offered to Chain.ProcessBlock. evaluations = calls compared with the reference; distinct_nontrivial = tables with >= 2 qualifying keys or a filtered key ((a),(b)) + distinct (height, boundary tallies) reached in (c)")
 	run.Assume("repeating an evaluation 4x cannot force a particular map iteration order; the reference order is total, so any dependence on iteration order shows up as a difference with high probability per tied table, not with certainty")
 	run.Assume("timestamps before the epoch start are outside the statement (unsigned subtraction)")
 	run.Assume("(c): vote outputs cannot be smaller than 10^8 (consensus), so tallies below the minimum arise only with the minimum 2*10^8; blocks are signed with the reference proposer's key, so a disagreement about the validator set surfaces as a rejected block")
